@@ -270,7 +270,7 @@ pub fn run(out_dir: &str, tier: &str, seed: u64, only: Option<String>) -> Value 
         .filter(|c| match &only {
             Some(o) => &c.name == o,
             // electrolytes have no virial coefficients (excluded by the property)
-            None => (full || c.core || c.name.starts_with("uv_bh1")) && !c.name.contains("nacl"),
+            None => (full || c.core || c.name.starts_with("uv_bh1") || c.name == "saftvrmie_literal_spherical_assoc") && !c.name.contains("nacl"),
         })
         .collect();
     let par = Par { out_dir, full, seed, k_t: if full { 4 } else { 2 }, lim3: if full { 900 } else { 450 }, prec: 100 };
